@@ -110,8 +110,10 @@ with read_dict_loop (L : limits) (fuel : nat) (d : N) (acc : list (bytes * obj))
   | S f =>
     match read_name L s with
     | Err _ =>
-      (* not a name: the dictionary must end here *)
-      if starts_with kw_gtgt s then Ok (ODict acc, drop 2 s) else Err Malformed
+      (* not a name (or a name that is too long, of which ReadName has consumed a part): the
+         dictionary must end where ReadName gave up *)
+      let s' := read_name_stop L s in
+      if starts_with kw_gtgt s' then Ok (ODict acc, drop 2 s') else Err Malformed
     | Ok (key, s1) =>
       match skip_ws s1 with
       | Err e => Err (eof_mal e)
